@@ -41,6 +41,10 @@ let fop_of s =
   | ["rs"; j; _] -> FReset (nat (int_of_string j))
   | ["iv"; j; a] -> FInvoke (nat (int_of_string j), z_of_int (int_of_string a))
   | _ -> failwith ("fop " ^ s)
+let fxop_of s =
+  match String.split_on_char ',' s with
+  | ["cx"; j; i] -> FXCopyAssignThrow (nat (int_of_string j), nat (int_of_string i))
+  | _ -> FX (fop_of s)
 let out_str = function
   | ONone -> "-" | OValue v -> "V" ^ string_of_int (int_of_z v) | OError e -> "E" ^ string_of_int (int_of_z e)
   | OStopped -> "S" | OThrewBad -> "TB" | OThrew e -> "T" ^ string_of_int (int_of_z e)
@@ -71,6 +75,11 @@ let () =
         let (tr, fin) = trace (sstep sbo) ops (init (nat (nu + na))) in
         emit "SND" id tr fin;
         emit_spec "SND" id (spec_trace sspec ops (List.init (nu + na) (fun _ -> None)))
+      | "IN" :: "FUNX" :: id :: _ ->
+        let n = int_of_string (field line "n") in
+        let ops = List.map fxop_of (List.filter (fun s -> s <> "") (String.split_on_char ';' (field line "ops"))) in
+        let (tr, fin) = trace fxstep ops (init (nat n)) in
+        emit "FUNX" id tr fin
       | "IN" :: "FUN" :: id :: _ ->
         let n = int_of_string (field line "n") in
         let ops = List.map fop_of (List.filter (fun s -> s <> "") (String.split_on_char ';' (field line "ops"))) in
